@@ -27,6 +27,7 @@ import (
 	"github.com/bufbuild/buf/private/pkg/storage"
 	"github.com/bufbuild/buf/private/pkg/storage/storageutil"
 	"github.com/bufbuild/buf/private/pkg/syserror"
+	"github.com/bufbuild/buf/private/pkg/verifhook"
 )
 
 // errNotDir is the error returned if a path is not a directory.
@@ -396,11 +397,14 @@ func (w *writeObjectCloser) Close() error {
 		atomicWriteErr := errors.Join(w.writeErr.Load(), err)
 		// Failed during Write or Close - remove temporary file without rename
 		if atomicWriteErr != nil {
+			verifhook.At("storageos.atomic.abort", w.file.Name(), w.path)
 			return toStorageError(errors.Join(atomicWriteErr, os.Remove(w.file.Name())))
 		}
+		verifhook.At("storageos.atomic.tempclosed", w.file.Name(), w.path)
 		if err := os.Rename(w.file.Name(), w.path); err != nil {
 			return toStorageError(errors.Join(err, os.Remove(w.file.Name())))
 		}
+		verifhook.At("storageos.atomic.renamed", w.file.Name(), w.path)
 	}
 	return err
 }
